@@ -135,6 +135,21 @@ pub fn explore(what: What, plan: &Plan) {
         if c.has_violations() {
             return;
         }
+        // --- L2b: pairs with nothing but a blank between them (the blank may be spelled as a line break)
+        let total = count_seq(k, 2, 2);
+        let (al, sp, pt, pa) = (alpha.clone(), spell.clone(), points.clone(), parser.clone());
+        let l2b_dev = plan.l2_dev.max(1);
+        sweep(&format!("L2b {cname}: pairs of {k} components separated by a single blank x spellings with <= {l2b_dev} deviations"), total, {
+            let al = alpha.clone();
+            move |i| json!({"kind": "model", "layer": "L2b", "extended": cfg.extended, "components": decode_seq(i, k, 2, 2).iter().map(|&j| format!("{:?}", al[j])).collect::<Vec<_>>()})
+        }, move |idx, local| {
+            let seq = decode_seq(idx, k, 2, 2);
+            let r = l2_recipe(&al, &seq, 2);
+            run_recipe(&r, cfg, &pa, what, l2b_dev, false, local, &sp, &pt, idx % 4999 == 11)
+        });
+        if c.has_violations() {
+            return;
+        }
         // --- L3
         let blocks = Arc::new(l3_alphabet(cfg));
         let k = blocks.len() as u64;
